@@ -472,7 +472,37 @@ func (c *ctx) rangeStmt(fc *fileCtx, s *ast.RangeStmt, fn fnCtx, res *Result) {
 	tv, ok := c.info.Types[s.X]
 	if ok {
 		if _, isChan := tv.Type.Underlying().(*types.Chan); isChan {
-			c.unsupported(s, "range over channel")
+			// for v := range ch {   ==>   for { __rvN, __rokN := simrt.ChanRecv2(ch); if !__rokN { break }; v := <typed __rvN>;
+			// (ch is evaluated once by Go; here it must be a plain variable or field)
+			if _, simple := s.X.(*ast.Ident); !simple {
+				if _, sel := s.X.(*ast.SelectorExpr); !sel {
+					c.unsupported(s, "range over a channel expression that is not a plain variable or field")
+					return
+				}
+			}
+			t, okT := c.chanElem(s.X)
+			if !okT {
+				c.unsupported(s, "range over a channel of a foreign element type")
+				return
+			}
+			c.tmpN++
+			n := c.tmpN
+			var pre strings.Builder
+			fmt.Fprintf(&pre, "__rv%d, __rok%d := simrt.ChanRecv2(%s); if !__rok%d { break };", n, n, fc.text(s.X), n)
+			if s.Key != nil {
+				if id, isID := s.Key.(*ast.Ident); !isID || id.Name != "_" {
+					tok := s.Tok.String()
+					if tok == ":=" {
+						fmt.Fprintf(&pre, "var %s %s; if __rv%d != nil { %s = __rv%d.(%s) };", fc.text(s.Key), t, n, fc.text(s.Key), n, t)
+					} else {
+						fmt.Fprintf(&pre, "if __rv%d != nil { %s = __rv%d.(%s) } else { var __rz%d %s; %s = __rz%d };", n, fc.text(s.Key), n, t, n, t, fc.text(s.Key), n)
+					}
+				}
+			}
+			fmt.Fprintf(&pre, "_ = __rv%d;", n)
+			res.ChanOps++
+			c.replace(fc, s.For, s.Body.Lbrace, "for ")
+			c.loopBody(fc, s.Body, fn, res, pre.String())
 			return
 		}
 	}
